@@ -66,19 +66,19 @@ MIN = {
               'parse_first_expr_vanished': 1000,
               'heading_checked': 10000, 'heading_instances_compared': 40000,
               'heading_with_fixed': 2000, 'rejections_expected': 1500},
-    'thorough': {'graph_lines_checked': 500000,
-                 'graph_instances_compared': 2000000,
-                 'graph_with_offset': 200000, 'graph_with_fixed': 200000,
-                 'graph_multi_param': 200000, 'parse_cases': 200000,
+    'thorough': {'graph_lines_checked': 250000,
+                 'graph_instances_compared': 1000000,
+                 'graph_with_offset': 150000, 'graph_with_fixed': 120000,
+                 'graph_multi_param': 150000, 'parse_cases': 120000,
                  'parse_nodes_dropped': 400000,
-                 'parse_dropped_plain_cases': 50000,
+                 'parse_dropped_plain_cases': 30000,
                  'parse_first_expr_vanished': 40000,
-                 'heading_checked': 300000,
-                 'heading_instances_compared': 1500000,
-                 'heading_with_fixed': 80000, 'rejections_expected': 50000},
+                 'heading_checked': 150000,
+                 'heading_instances_compared': 800000,
+                 'heading_with_fixed': 50000, 'rejections_expected': 35000},
 }
 NCASES = {'quick': 64, 'thorough': 512}
-SETS_PER_CASE = {'quick': 120, 'thorough': 500}
+SETS_PER_CASE = {'quick': 120, 'thorough': 300}
 CASE_TIMEOUT = 300
 
 
